@@ -251,6 +251,24 @@ static void run_table(Json& js, vh::Rng& rng, int reps) {
                     ev_bin(js, "CAS", op, aC, sR, "real", [&](AV& r, AV& a2, AV&) { arr_cmplx x = mkC(aC); compound(op, x, sr); r = from(x); a2 = r; });
                     ev_bin(js, "CAS", op, aC, sR, "int", [&](AV& r, AV& a2, AV&) { arr_cmplx x = mkC(aC); compound(op, x, si); r = from(x); a2 = r; });
                     ev_bin(js, "CAS", op, aC, sC, "cmplx", [&](AV& r, AV& a2, AV&) { arr_cmplx x = mkC(aC); compound(op, x, sc); r = from(x); a2 = r; });
+                    // the scalar operand is an element of the array itself (x op= x[k]): every element sees the value x[k] had
+                    // when the statement began
+                    for (int k : {0, n - 1}) {
+                        if (n < 1 || (k == 0 && n == 1 && false)) {
+                            continue;
+                        }
+                        AV eR = aR, eC = aC;
+                        if (dv) {
+                            const AV d1 = gen_div(rng, false, 1), d2 = gen_div(rng, true, 1);
+                            eR.re[k] = d1.re[0];
+                            eC.re[k] = d2.re[0], eC.im[k] = d2.im[0];
+                        }
+                        AV kR, kC;
+                        kR.cplx = false, kR.re = {eR.re[k]}, kR.im = {0};
+                        kC.cplx = true, kC.re = {eC.re[k]}, kC.im = {eC.im[k]};
+                        ev_bin(js, "CAS", op, eR, kR, "real", [&](AV& r, AV& a2, AV&) { arr_real x = mkR(eR); compound(op, x, x[k]); r = from(x); a2 = r; });
+                        ev_bin(js, "CAS", op, eC, kC, "cmplx", [&](AV& r, AV& a2, AV&) { arr_cmplx x = mkC(eC); compound(op, x, x[k]); r = from(x); a2 = r; });
+                    }
                 }
             }
             // unary, concatenation, selection
